@@ -1122,10 +1122,47 @@ class Interp:
             if t is ast.NotEq:
                 return Sym(z3.Not(r.t)) if isinstance(r, Sym) else not r
             return r
+        if t in (ast.Eq, ast.NotEq) and (isinstance(a, SymArr) and a.pylist or isinstance(b, SymArr) and b.pylist):
+            # `==` of Python lists compares length and elements; SymArr defines no __eq__, so the native operator would
+            # compare object identity (engine self-test: symlist_equality)
+            r = self._list_eq(a, b)
+            if t is ast.NotEq:
+                return Sym(z3.Not(r.t)) if isinstance(r, Sym) else not r
+            return r
         try:
             return _CMPOPS[t](a, b)
         except TypeError as e:
             raise RaiseSig(e)
+
+    def _list_eq(self, a, b):
+        """Equality of two Python lists of which at least one is a SymArr(pylist=True)."""
+        if a is b:
+            return True
+        sides = []
+        for x in (a, b):
+            if isinstance(x, SymArr) and x.pylist and x.ndim == 1:
+                ln = V._dim_lit(x.sym_len())
+                if ln is None:
+                    raise OutOfSubset("== of a symbolic-length list")
+                sides.append([x.fn(z3.IntVal(i)) for i in range(ln)])
+            elif isinstance(x, list):
+                sides.append(x)
+            elif isinstance(x, (SymArr, Obj, Kind)):
+                raise OutOfSubset(f"== of a symbolic list and {type(x).__name__}")
+            else:
+                return False  # a list never equals a tuple / number / None / str
+        if len(sides[0]) != len(sides[1]):
+            return False
+        conj = []
+        for x, y in zip(*sides):
+            r = self.compare(ast.Eq(), x, y)
+            if isinstance(r, Sym):
+                conj.append(r.t)
+            elif isinstance(r, SymArr):
+                raise OutOfSubset("== of lists with array elements")
+            elif not r:
+                return False
+        return Sym(z3.And(*conj)) if conj else True
 
     def identical(self, a, b):
         if isinstance(a, Kind) or isinstance(b, Kind):
@@ -1280,6 +1317,16 @@ class Interp:
         try:
             r = getattr(base, name)
         except AttributeError as e:
+            if isinstance(base, SymArr):
+                # the real list / ndarray / Tensor HAS this attribute: not modelled, not an AttributeError
+                # (engine self-test: symlist_count_method)
+                real_t = list if base.pylist else getattr(base, "as_type", None)
+                if real_t is None:
+                    import numpy as _np
+
+                    real_t = _np.ndarray
+                if hasattr(real_t, name):
+                    raise OutOfSubset(f"attribute {name} of a symbolic {real_t.__name__} is not modelled")
             raise RaiseSig(e)
         return r
 
@@ -1496,6 +1543,10 @@ class Interp:
             return con.apply(self, args, kwargs)
         if con is not None and qn == self.under_verification_top() and self.depth > 0 and con.recursive_by_contract:
             return con.apply(self, args, kwargs)
+        if qn in getattr(reg, "opaque_calls", ()):
+            # collaborator outside this contract: treated as a no-op with an ASSUMED frame (the property module lists it in TRUSTED)
+            self.ctx.ghost.setdefault("opaque_calls", set()).add(qn)
+            return None
         if qn in reg.inline or reg.inline_all or not contains_sym((args, kwargs)) and not reg.strict_calls:
             if qn in reg.inline or reg.inline_all:
                 self.ctx.ghost.setdefault("inlined", set()).add(qn)
